@@ -288,6 +288,9 @@ Fixpoint replace_last_op (l : list qreq) (by_ : list qreq) : option (list qreq) 
   end.
 
 Definition is_idle (s : cst) : bool := match ph s with Idle => negb (ct_exited s) && negb (out_pending s) | _ => false end.
+(* the container goroutine is in its select loop and still takes requests *)
+Definition serving (s : cst) : bool := is_idle s && negb (ended s) && negb (done_seen s).
+Definition idle_ph (s : cst) : bool := match ph s with Idle => true | _ => false end.
 Definition rendering (s : cst) : bool := match ph s with Rendering _ _ _ _ _ _ => true | _ => false end.
 Definition nil_b {A} (l : list A) : bool := match l with [] => true | _ => false end.
 
@@ -303,7 +306,7 @@ Definition step (s : cst) (e : ev) : option cst :=
   | CL_WRITE w seq lines => Some (cs_pend_writes s (pend_writes s ++ [(w, seq, lines)]))
   | CL_CANCEL => Some (cs_cancelled s true)
   (* ---- container goroutine: one thing at a time ---- *)
-  | CT_OP => if is_idle s then Some (cs_fifo s (fifo s ++ [QOp])) else None
+  | CT_OP => if serving s && negb (errored s) then Some (cs_fifo s (fifo s ++ [QOp])) else None
   | CT_ADD b id prio tot explicit after rmf np tr xr xv =>
       match lookup b (bars s) with
       | Some _ => None
@@ -329,7 +332,7 @@ Definition step (s : cst) (e : ev) : option cst :=
         else None
       end
   | CT_IO =>
-      if negb (is_idle s) then None else
+      if negb (serving s && negb (errored s)) then None else
       match pend_writes s with
       | (w, seq, lines) :: rest =>
           let txt := text_items w seq 0 (Z.to_nat lines) in
@@ -337,9 +340,9 @@ Definition step (s : cst) (e : ev) : option cst :=
           Some (if delayed s then s1 else cs_wlog s1 (wlog s ++ txt))
       | [] => Some s     (* the harness's barrier: an empty write *)
       end
-  | CT_DELAYEND => if delayed s && is_idle s then Some (cs_delayed (cs_cwbuf s []) false) else None
+  | CT_DELAYEND => if delayed s && serving s then Some (cs_delayed (cs_cwbuf s []) false) else None
   | CT_RENDERBEGIN =>
-      if is_idle s && negb (errored s)
+      if is_idle s && negb (errored s) && negb (ended s)
       then Some (cs_cycle_err (cs_fifo (cs_ph s (Rendering 0 0 [] 0 0 [])) (fifo s ++ [QSync; QIter])) false)
       else None
   | CT_RENDERSIZE wd ht =>
@@ -431,7 +434,7 @@ Definition step (s : cst) (e : ev) : option cst :=
       | f :: _ => if out_pending s && items_eqb f items then Some (cs_out_pending s false) else None
       | [] => None
       end
-  | CT_DONE => if is_idle s then Some (cs_done_seen s true) else None
+  | CT_DONE => if serving s then Some (cs_done_seen s true) else None
   | CT_EXIT => if done_seen s && is_idle s then Some (cs_ct_exited s true) else None
   (* ---- heap manager goroutine: one request at a time ---- *)
   | HM_PUSH b sy hl cs cl =>
@@ -481,9 +484,9 @@ Definition step (s : cst) (e : ev) : option cst :=
       end
   | HM_STATE hl cs cl =>
       if negb (ended s) && negb (iterating s) && (hl =? Z.of_nat (length (heap s))) && Bool.eqb cs (hsync s) && (cl =? hlen s)
-         && done_seen s && nil_b (fifo s) then Some s else None
+         && done_seen s && nil_b (fifo s) && idle_ph s then Some s else None
   | HM_END hl =>
-      if negb (iterating s) && negb (ended s) && (hl =? Z.of_nat (length (heap s))) && done_seen s && nil_b (fifo s)
+      if negb (iterating s) && negb (ended s) && (hl =? Z.of_nat (length (heap s))) && done_seen s && nil_b (fifo s) && idle_ph s
       then Some (cs_ended s true) else None
   | HM_POP b p =>
       match lookup b (bars s) with
